@@ -368,7 +368,12 @@ M("k1-use-before-test", "C12", "fire K1", "src/compile.rs",
   """        let mut sorted_const_defs: Vec<_> = self.const_defs.iter().collect();""", "constants are used although errors were collected (never returned)")
 
 # ---------------------------------------------------------------- C11
-REVERT("revert-importer-checked-arith", "C11", "fire B1", "f41f37b", "pre-fix tree: header numbers are summed / subtracted with trapping arithmetic")
+M2("revert-importer-checked-arith", "C11", "fire B1", [
+  ("src/convert.rs", """            let Some(num_output_wires) = checked_sum(&gates_per_output) else {
+                return Err(FromBristolError::MalformedLine(line_str));
+            };""", """            let num_output_wires = gates_per_output.iter().sum::<usize>();"""),
+  ("src/convert.rs", """            if num_outputs != 1 || Some(parts.len()) != num_inputs.checked_add(4) {""", """            if num_outputs != 1 || parts.len() != num_inputs + 4 {"""),
+  ], "pre-fix form of f41f37b (two of its sites): header numbers are summed / added with trapping arithmetic")
 M("b2-unwrap-parse", "C11", "fire B2", "src/convert.rs",
   """            let num_inputs: usize = parts[0].parse()?;""",
   """            let num_inputs: usize = parts[0].parse().unwrap();""", "a non-numeric gate field panics")
